@@ -95,46 +95,47 @@ theorem filter_pos_some {o : Option Nat} {i : Nat} (h : o.filter (fun i => 0 < i
     · cases h
 
 /-- `finishName` never panics: `consumed_positions` is as long as `parts`, the `till_in` tweak
-only fires for an index `> 0` (lexer.rs:655), and the prefix loop stays within `1..parts.len()`. -/
+only fires for an index `> 0` (lexer.rs:655), the prefix loop stays within `1..parts.len()`, and
+the `item` tweak reads `consumed_positions[0]` of a non-empty part list. -/
 theorem finishName_no_panic (l : Lx) (st : NameSt) (hl : st.positions.length = st.parts.length)
     (s : PanicSite) : finishName l st ≠ .panic s := by
   intro h
   unfold finishName at h
+  simp only at h
   split at h
-  · -- item
-    rename_i hitem
+  · rename_i index hidx
+    have htill : l.tillIn = true := by
+      by_cases ht : l.tillIn = true
+      · exact ht
+      · simp [ht] at hidx
+    simp only [htill, if_true] at hidx
+    obtain ⟨hpos, hgt⟩ := filter_pos_some hidx
     split at h
-    · rename_i hp
-      have : st.parts ≠ [] := by
-        intro he; simp [he] at hitem
-      have hlen : 0 < st.positions.length := by
-        rw [hl]; exact List.length_pos_iff.mpr this
-      simp [List.getElem?_eq_getElem hlen] at hp
+    · rename_i h0
+      omega
+    · split at h
+      · rename_i hp
+        have := positionOfIn_lt _ _ hpos
+        have hlen : index - 1 < st.positions.length := by omega
+        simp [List.getElem?_eq_getElem hlen] at hp
+      · cases h
+  · split at h
+    · rename_i hh
+      exact prefixLoop_no_panic l.keys st.parts st.positions hl _ (Nat.le_refl _) _ hh
     · cases h
-  · simp only at h
-    split at h
-    · rename_i index hidx
-      have htill : l.tillIn = true := by
-        by_cases ht : l.tillIn = true
-        · exact ht
-        · simp [ht] at hidx
-      simp only [htill, if_true] at hidx
-      obtain ⟨hpos, hgt⟩ := filter_pos_some hidx
-      split at h
-      · rename_i h0
-        omega
-      · split at h
+    · cases h
+    · cases h
+    · split at h
+      · -- item
+        rename_i hitem
+        split at h
         · rename_i hp
-          have := positionOfIn_lt _ _ hpos
-          have hlen : index - 1 < st.positions.length := by omega
+          have : st.parts ≠ [] := by
+            intro he; simp [he] at hitem
+          have hlen : 0 < st.positions.length := by
+            rw [hl]; exact List.length_pos_iff.mpr this
           simp [List.getElem?_eq_getElem hlen] at hp
         · cases h
-    · split at h
-      · rename_i hh
-        exact prefixLoop_no_panic l.keys st.parts st.positions hl _ (Nat.le_refl _) _ hh
-      · cases h
-      · cases h
-      · cases h
       · repeat' split at h
         all_goals cases h
 
@@ -147,6 +148,15 @@ theorem consumeName_no_panic (l : Lx) (s : PanicSite) : consumeName l ≠ .panic
   · cases h
   · rename_i st hst
     exact finishName_no_panic l st (collectParts_len hst) s h
+
+theorem nameArm_no_panic (l : Lx) (s : PanicSite) : nameArm l ≠ .panic s := by
+  intro h
+  unfold nameArm at h
+  split at h
+  · cases h
+  · cases h
+  · rename_i hh; exact consumeName_no_panic _ _ hh
+  · cases h
 
 theorem ite_panic {α : Type} {c : Prop} [Decidable c] {a b : Out α} {s : PanicSite} {P : Prop}
     (ha : a = .panic s → P) (hb : ¬ c → b = .panic s → P) : (if c then a else b) = .panic s → P := by
@@ -171,7 +181,7 @@ theorem readNextToken_no_panic (l : Lx) (s : PanicSite) : readNextToken l ≠ .p
   refine ite_panic ?_ (fun _ => ?_)
   · refine ite_panic (fun h => by cases h) (fun _ h => by cases h)
   -- the name
-  refine ite_panic (fun h => consumeName_no_panic _ s h) (fun _ => ?_)
+  refine ite_panic (fun h => nameArm_no_panic _ s h) (fun _ => ?_)
   refine ite_panic (fun h => by cases h) (fun _ h => by cases h)
 
 end Dmn.Lexer
